@@ -268,7 +268,7 @@ func TestVerifStubFree(t *testing.T) {
 		r := &regs[k]
 		if r.Src == "holder" && !r.Err {
 			b := *(*[]byte)(unsafe.Pointer(&struct {
-				p uintptr
+				p    uintptr
 				l, c int
 			}{uintptr(r.Lo), r.Len, r.Len}))
 			sp := &Space{Addr: uintptr(r.Lo), Space: &b, typ: TypeHolder}
@@ -295,6 +295,18 @@ func TestVerifStubFree(t *testing.T) {
 		rank[p] = i
 	}
 	enc.Encode(map[string]interface{}{"ev": "reserve", "lo": rank[resLo], "hi": rank[resHi], "p": 0, "len": 0, "size": 0, "src": "", "err": false, "x": ""})
+	// the unshrunk reserve [min, max) against the run-time symbol table
+	bx := "ok"
+	f0, f1 := runtime.FuncForPC(placeHolderIns.min), runtime.FuncForPC(saveMax-1)
+	switch {
+	case f0 == nil || f1 == nil:
+		bx = "reserve-outside-any-function"
+	case !strings.HasSuffix(f0.Name(), "stub.Placeholder"):
+		bx = "reserve-starts-in-" + f0.Name()
+	case f1.Name() != f0.Name():
+		bx = fmt.Sprintf("reserve-of-%d-bytes-reaches-into-%s", saveMax-placeHolderIns.min, f1.Name())
+	}
+	enc.Encode(map[string]interface{}{"ev": "bounds", "lo": 0, "hi": 0, "p": 0, "len": 0, "size": 0, "src": "", "err": false, "x": bx})
 	for _, r := range regs {
 		lo, hi := 0, 0
 		if !r.Err {
